@@ -35,7 +35,9 @@ MEMS = ["f", "g", "h"]
 ALIASES = ["al1", "al2"]
 UNKNOWN = ["vqzz", "vqyy"]
 NOSUCH = "nosuch"
-ALLNAMES = set(TOPS + SUBS + SUBSUBS + MEMS + ALIASES + UNKNOWN + [NOSUCH, "zz", "yy"])
+SIBLINGS = [t + "x" for t in TOPS]      # top-level modules whose names merely START WITH another module's name
+LOCALS = ["lv1", "lv2", "lv3"]          # names only ever bound by the analysed code itself (never in a database)
+ALLNAMES = set(TOPS + SIBLINGS + SUBS + SUBSUBS + MEMS + ALIASES + UNKNOWN + LOCALS + [NOSUCH, "zz", "yy"])
 
 
 # ----------------------------------------------------------------------------
@@ -67,6 +69,10 @@ def gen_universe(rng):
 
     for t in TOPS[:ntop]:
         mk(t, rng.random() < 0.75, 0)
+        if rng.random() < 0.2:
+            # a sibling whose name shares a character prefix with `t` (vqa / vqax): not a submodule of it
+            sib = mk(t + "x", rng.random() < 0.3, 1)
+            sib["members"] = sorted(set(sib["members"]) | {rng.choice(MEMS)})
     paths = [m["path"] for m in mods]
     for m in mods:
         if rng.random() < 0.12:
@@ -161,6 +167,23 @@ def gen_db(rng, uni):
             forget.append("import " + d.rsplit(".", 1)[0])
         elif lines:
             forget.append(rng.choice(lines))
+    sib = [p for p in paths if p in SIBLINGS]
+    if sib and rng.random() < 0.7:
+        # names known from a module AND from its character-prefix sibling (and maybe a third place)
+        t = rng.choice(sib)
+        nm = rng.choice(MEMS)
+        lines.append("from %s import %s" % (t, nm))
+        if rng.random() < 0.8:
+            lines.append("from %s import %s" % (t[:-1], nm))
+        if rng.random() < 0.7:
+            lines.append("from %s import %s" % (rng.choice(paths), nm))
+        lines = list(dict.fromkeys(lines))
+    if rng.random() < (0.5 if sib else 0.08):
+        # "forget everything imported from module m (and below)"
+        mods_used = sorted({l.split()[1] for l in lines if l.startswith("from ")})
+        if mods_used:
+            m = rng.choice(mods_used)
+            forget.append("from %s import *" % rng.choice([m, m.split(".")[0]]))
     text = "\n".join(lines) + ("\n" if lines else "")
     if forget:
         text += "__forget_imports__ = %r\n" % (forget,)
@@ -251,9 +274,14 @@ def db_lookup_table(text, keep_empty=False):
     set — the D15 shape, for the family predicate)."""
     ents, forgets = db_entries(text)
     fset = {(f, a) for f, a, _ in forgets}
+    # `from m import *` in the forget list: everything imported FROM module m or from a module below it
+    # (dotted prefix, not character prefix) is forgotten
+    stars = {f[:-2] for f, a, _ in forgets if a == "*"}
     tab = {}
     for full, ias, stmt in ents:
         if (full, ias) in fset:
+            continue
+        if stmt.startswith("from ") and any(pre in stars for pre in prefixes(stmt.split()[1])):
             continue
         tab.setdefault(ias, set()).add((full, ias, stmt))
         parts = full.split(".")
@@ -304,18 +332,93 @@ SIG_SNIPPETS = [
 ]
 
 
-def gen_code(rng, pool):
-    a, b, c = (rng.choice(pool) for _ in range(3))
+# the code binds the identifier {h} ITSELF (every parameter position, lambda, targets, definitions) and reads it:
+# nothing may be imported for it, whatever the database knows under that name
+BINDS_SNIPPETS = [
+    "def fn({h}, /): return {h}", "def fn({h}, /, q=1): return {h} + q\nfn(1)", "def fn(p, /, {h}): return {h}",
+    "def fn({h}): return {h}", "def fn(*{h}): return {h}", "def fn(*, {h}): return {h}", "def fn(**{h}): return {h}",
+    "def fn(p, /, q, *{h}, k=1, **kw): return {h}, p", "def fn({h}, {h2}, /, *, k): return {h}, {h2}, k",
+    "lambda {h}, /: {h}", "lambda *{h}: {h}", "lambda **{h}: {h}", "lambda *, {h}=1: {h}", "lambda {h}=1: {h}.zz",
+    "async def fn({h}, /): return {h}", "class K:\n    def m(self, {h}, /): return {h}",
+    "def fn({h}, /):\n    def inner(): return {h}\n    return inner", "def fn({h}, /): return [{h} for i in range(2)]",
+    "def fn({h}, /): return lambda: {h}", "[{h} for {h} in range(2)]", "for {h} in range(2): print({h})",
+    "import os as {h}\n{h}", "{h} = 1\n{h}", "def {h}(): pass\n{h}()", "class {h}: pass\n{h}()", "({h} := 2, {h})",
+    "def fn({h}, /): return {h}, {a}", "def fn({h}: {a}, /) -> {b}: return {h}",
+]
+# `del` of a name that lives only in a supplied namespace, `global` / `nonlocal` declarations: analysing such code
+# must not touch the caller's namespaces
+DEL_SNIPPETS = [
+    "del {hb}", "del {hb}\n{a}", "{a}\ndel {hb}", "def fn():\n    global {hb}\n    del {hb}", "def fn():\n    del {hb}",
+    "if False:\n    del {hb}", "del {hb}; {b}", "class K:\n    def m(self):\n        global {hb}\n        del {hb}",
+]
+GLOBAL_SNIPPETS = [
+    "def fn():\n    global {h}\n    {h} = 1", "def fn():\n    global {h}\n    return {h}",
+    "def fn():\n    global {h}\n    {h} = 1\nfn()\n{h}", "def fn():\n    global {h}, {h2}\n    {h2} = {h}",
+    "class K:\n    def m(self):\n        global {h}\n        {h} = 2", "global {h}\n{h} = 1",
+    "def outer():\n    x = 1\n    def inner():\n        nonlocal x\n        global {h}\n        x = {h}\n    return inner",
+    "def fn():\n    global {h}\n    import os as {h}", "def fn():\n    global {h}\n    def {h}(): pass",
+    "def fn():\n    global {h}\n    for {h} in range(2): pass\n    return {a}", "def fn():\n    global {h}\n    {h} = {a}",
+]
+# a name the code binds and that Python UNBINDS again before it is read (handler `as` name bound earlier in the
+# same scope with the handler really running; del): the read needs an import and no database knows the name
+UNBIND_SNIPPETS = [
+    "{lv} = None\ntry:\n    1/0\nexcept ZeroDivisionError as {lv}:\n    pass\nprint({lv})",
+    "import os as {lv}\ntry:\n    1/0\nexcept Exception as {lv}:\n    pass\n{lv}",
+    "{lv} = 1\ntry:\n    raise ExceptionGroup('g', [ValueError()])\nexcept* ValueError as {lv}:\n    pass\n{lv}",
+    "def fn():\n    {lv} = None\n    try:\n        1/0\n    except ZeroDivisionError as {lv}:\n        pass\n    return {lv}\nfn()",
+    "{lv} = 0\ntry:\n    1/0\nexcept ZeroDivisionError as {lv}:\n    {a}\n{lv}",
+    "{lv} = 1\ndel {lv}\n{lv}",
+    "for {lv} in [1]:\n    try:\n        1/0\n    except ZeroDivisionError as {lv}:\n        pass\n{lv}",
+    "def {lv}(): pass\ntry:\n    1/0\nexcept (KeyError, ZeroDivisionError) as {lv}:\n    pass\nelse:\n    pass\n{lv}()",
+    "class {lv}: pass\ntry:\n    [][1]\nexcept KeyError as {lv2}:\n    pass\nexcept IndexError as {lv}:\n    pass\nfinally:\n    pass\n{lv}",
+    # controls: the name survives (handler does not run / fresh name not read afterwards)
+    "{lv} = 1\ntry:\n    pass\nexcept Exception as {lv2}:\n    pass\n{lv}",
+    "try:\n    1/0\nexcept ZeroDivisionError as {lv}:\n    print({lv})\n{a}",
+]
+# definitions at top level (maybe deleted again) and later uses inside function bodies: what one piece of code
+# LOOKED like must not matter for the next one, only the namespaces do
+CLASS_SNIPPETS = [
+    "class {h}:\n    pass\ndel {h}", "class {h}:\n    x = 1\n    def m(self): return {h}", "class {h}({a}): pass\ndel {h}",
+    "class {h}:\n    def bump(self): return self\nz = {h}().bump()\ndel {h}", "def {h}(): pass\ndel {h}",
+    "def fn():\n    return {h}\nfn()", "fn = lambda: {h}\nfn()", "def fn():\n    def inner(): return {h}.zz\n    return inner",
+    "class K:\n    def m(self): return {h}\nK().m()", "def fn(q={h}): return q",
+]
+
+
+def gen_code(rng, pool, idents=None, bound=None, session=False):
+    """one snippet; `idents`: single identifiers worth using as {h} (database names, bound names, members …);
+    `bound`: identifiers bound in the namespaces this call is given (for `del`)"""
+    idents = idents or MEMS
+    h, h2 = rng.choice(idents), rng.choice(idents)
+    hb = rng.choice(bound) if bound else h
+    # the dotted names {a} {b} {c} never start with an identifier the snippet binds / deletes itself
+    # (`class K(K)`, `def f(x) -> x`, `del x; x`: missing-name analysis there is C05's business, see notes)
+    ok = [d for d in pool if d.split(".")[0] not in (h, h2, hb)] or [UNKNOWN[1]]
+    a, b, c = (rng.choice(ok) for _ in range(3))
+    lv, lv2 = rng.sample(LOCALS, 2)
     r = rng.random()
-    if r < 0.07:
+    if session and rng.random() < 0.5:
+        # a session on ONE reused ScopeStack: definitions (maybe deleted again) and later uses in function bodies
+        t = rng.choice(CLASS_SNIPPETS)
+    elif r < 0.06:
         t = rng.choice(BAD_SNIPPETS)
-    elif r < 0.14:
+    elif r < 0.12:
         t = rng.choice(INDENTED_SNIPPETS)
-    elif r < 0.30:
+    elif r < 0.24:
         t = rng.choice(SIG_SNIPPETS)
+    elif r < 0.36:
+        t = rng.choice(BINDS_SNIPPETS)
+    elif r < 0.42 and bound:
+        t = rng.choice(DEL_SNIPPETS)
+    elif r < 0.49:
+        t = rng.choice(GLOBAL_SNIPPETS)
+    elif r < 0.56:
+        t = rng.choice(UNBIND_SNIPPETS)
+    elif r < 0.64:
+        t = rng.choice(CLASS_SNIPPETS)
     else:
         t = rng.choice(SNIPPETS)
-    return t.format(a=a, b=b, c=c, ha=a.split(".")[0])
+    return t.format(a=a, b=b, c=c, ha=a.split(".")[0], h=h, h2=h2, hb=hb, lv=lv, lv2=lv2)
 
 
 def gen_value(rng, uni, name, extc):
@@ -355,11 +458,28 @@ def gen_case(rng):
     calls = []
     ncalls = rng.choice([1, 1, 2, 2, 3, 4])
     focus = [rng.choice(pool) for _ in range(3)]     # repeated names make sequences interact
+    # single identifiers for the snippets that bind / delete / declare a name: names the database knows, names
+    # bound in the namespaces, members, module names, unknown names
+    known = sorted({a for f, a, _ in ents if "." not in a})
+    allbound = sorted({k for b in nss for k in b})
+    idents = known * 2 + allbound + MEMS + [p for p in paths if "." not in p] + [UNKNOWN[0]]
+    focus_id = [rng.choice(idents) for _ in range(2)]
+    views = nns >= 2 and rng.random() < 0.3
+    # the caller keeps ONE ScopeStack object per stack and hands it to every call (documented as accepted)
+    session = rng.random() < 0.25
+    if session:
+        ncalls = max(ncalls, rng.choice([2, 3, 4]))
     for _ in range(ncalls):
         r = rng.random()
         lp = pool if rng.random() < 0.5 else focus
         if r < 0.74:
-            calls.append(dict(kind="code", code=gen_code(rng, lp)))
+            # calls of one cell may be given different namespace stacks (e.g. a debugger frame): a view of the pool
+            stack = rng.sample(range(nns), rng.randint(1, nns)) if views else list(range(nns))
+            bound = sorted({k for i in stack for k in nss[i]})
+            c = dict(kind="code", code=gen_code(rng, lp, focus_id if (session or rng.random() < 0.5) else idents, bound, session))
+            if views:
+                c["stack"] = stack
+            calls.append(c)
         elif r < 0.84:
             calls.append(dict(kind="symbol", name=rng.choice(lp)))
         elif r < 0.94:
@@ -367,12 +487,13 @@ def gen_case(rng):
             calls.append(dict(kind="try", imp=rng.choice(cands), ns=rng.randrange(nns)))
         else:
             calls.append(dict(kind="newcell"))
-    if nns >= 2 and rng.random() < 0.3:
-        # calls of one cell may be given different namespace stacks (e.g. a debugger frame): a view of the pool
+    if views:
         for c in calls:
-            if c["kind"] in ("code", "symbol"):
+            if c["kind"] == "symbol":
                 c["stack"] = rng.sample(range(nns), rng.randint(1, nns))
     case = dict(universe=uni, db=db, preload=preload, nss=nss, calls=calls)
+    if session:
+        case["scopestack"] = True
     if rng.random() < 0.35:
         case["extra_db"] = gen_extra_db(rng, uni, db)
     return case
@@ -563,6 +684,26 @@ def stmt_bound_name(stmt):
     return a.asname or a.name
 
 
+def global_reads(code):
+    """names whose read is resolved in the namespaces the code runs in (module-level reads, and reads that a
+    nested scope resolves globally), by CPython's own symbol table; None = does not compile"""
+    import symtable
+    try:
+        st = symtable.symtable(code, "<vq>", "exec")
+    except SyntaxError:
+        return None
+    out = set()
+
+    def walk(t, top):
+        for sy in t.get_symbols():
+            if sy.is_referenced() and (top or sy.is_global()):
+                out.add(sy.get_name())
+        for ch in t.get_children():
+            walk(ch, False)
+    walk(st, True)
+    return out
+
+
 def read_chains(code):
     """dotted chains (Name / Attribute-of-Name) occurring in the code, and names read"""
     try:
@@ -740,6 +881,7 @@ def run_history(case, scratch_base):
         obs["ns0"] = _snapshot(nss, ids)
         obs["reg0"] = _registry(paths, ids, names)
         autoimported = {}
+        shared = {}          # one ScopeStack object per distinct stack, reused by every call (case["scopestack"])
         for call in case["calls"]:
             co = dict(kind=call["kind"])
             obs["calls"].append(co)
@@ -749,6 +891,12 @@ def run_history(case, scratch_base):
             before = _snapshot(nss, ids)
             co["before"] = before
             stk = [nss[i] for i in call_stack(case, call)]
+            fresh = stk
+            if case.get("scopestack"):
+                key = tuple(call_stack(case, call))
+                if key not in shared:
+                    shared[key] = A.ScopeStack(stk)
+                stk = shared[key]
             co["failed_before"] = sorted(stmt_key(str(i)) for i in A._IMPORT_FAILED)
             snaps = []
             rec = Recorder(ids, on_stmt=lambda ev: snaps.append(_snapshot(nss, ids)))
@@ -761,6 +909,14 @@ def run_history(case, scratch_base):
                     co["missing"] = "syntax"
                 except Exception as e:
                     co["missing"] = "exc:" + type(e).__name__
+                if stk is not fresh:
+                    # the same analysis on a fresh stack over the same namespaces
+                    try:
+                        co["missing_fresh"] = [str(x) for x in A.find_missing_imports(code, list(fresh))]
+                    except SyntaxError:
+                        co["missing_fresh"] = "syntax"
+                    except Exception as e:
+                        co["missing_fresh"] = "exc:" + type(e).__name__
                 with rec:
                     try:
                         res = A.auto_import(code, stk, db=db, autoimported=autoimported, extra_db=extra)
@@ -804,7 +960,7 @@ def run_history(case, scratch_base):
             co["run"] = None
             if code is not None and res is True and call["kind"] == "code":
                 merged = {}
-                for ns in stk:
+                for ns in fresh:
                     merged.update(ns)
 
                 def child(merged=merged, code=code):
@@ -911,6 +1067,10 @@ def oracle_c06(case, obs):
                 fails.append(dict(what="unparsable code caused an import attempt", **_ctx(case, ci, co)))
         if call["kind"] in ("code", "symbol"):
             heads = {c.split(".")[0] for c in (chains or ())}
+            if call["kind"] == "code" and chains is not None:
+                gr = global_reads(code)
+                if gr is not None:
+                    heads &= gr        # a name the code binds itself (parameter, local …) is not read from outside
             for k, d, i in added[tgt]:
                 # -- only top-level names that the code reads
                 if k not in heads:
@@ -983,6 +1143,10 @@ def oracle_c07(case, obs):
         if isinstance(res, str) and res.startswith("exc:"):
             fails.append(dict(what="exception escaped instead of a result", exc=res[4:], missing=missing, **_ctx(case, ci, co)))
             continue
+        # -- what earlier code LOOKED like must not matter: same analysis as on a fresh stack over the same namespaces
+        if "missing_fresh" in co and co["missing_fresh"] != missing:
+            fails.append(dict(what="a reused ScopeStack changes which names are missing", missing=missing,
+                              missing_on_fresh_stack=co["missing_fresh"], **_ctx(case, ci, co)))
         # -- success => the code runs without NameError
         if res is True and call["kind"] == "code":
             run = co.get("run")
